@@ -11,6 +11,7 @@ mod node;
 mod ops;
 mod rng;
 mod run;
+mod scale;
 mod world;
 
 use std::collections::{HashMap, HashSet};
@@ -98,7 +99,7 @@ fn nontrivial(prop: &str, r: &HistResult) -> bool {
         "C05" => (s.weak_obs + s.wprobes) > 0 && s.begins > 0,
         "C06" => s.count_obs > 0 && s.begins > 0,
         "C08" => s.links_entries > 0,
-        "C09" => r.tables_multi > 0 && s.begins > 0,
+        "C09" => r.tables_multi > 0 && s.begins > 0 && r.distinct_orders_max >= 2,
         "C10" => s.script_actions > 0,
         "C11" => s.panics_scripted > 0,
         "C12" => s.consume_ok > 0 && s.links_entries > 0,
@@ -429,6 +430,97 @@ fn cmd_run(a: &Args) -> i32 {
                 let r = run::run_history(&cfg, &mut g, 100_000);
                 (r, format!("{} class={} seed={} idx={} [{}]", gen, class.name(), seed, this, desc))
             }
+            None if gen == "layout" => {
+                // C09: the same call sequence under K heap layouts
+                let k = a.u64("layouts", 8) as usize;
+                let src = this % 3;
+                let mut cfg0 = cfg.clone();
+                cfg0.class = Class::Full;
+                cfg0.alloc_mode = alloc::MODE_SCATTER;
+                cfg0.hard_exit = false;
+                let (first, srcdesc) = match src {
+                    0 => {
+                        let (ops, desc) = gen::family_ops(this / 3, seed, Class::Full, 10);
+                        let mut it = ops.into_iter();
+                        let mut g = |_: &World| it.next();
+                        (run::run_history(&cfg0, &mut g, 100_000), format!("family[{}]", desc))
+                    }
+                    1 => {
+                        let hseed = mix(seed, this);
+                        let rc = RandCfg { class: Class::Full, max_objs: 2 + (mix(hseed, 2) % 5) as usize, len: 15 + (mix(hseed, 1) % 60) as usize, weak_bias: 1, consume_bias: 0 };
+                        let mut rg = RandGen::new(rc, hseed);
+                        let mut g = |w: &World| rg.next(w);
+                        (run::run_history(&cfg0, &mut g, 10_000), format!("rand FULL hseed={}", hseed))
+                    }
+                    _ => {
+                        let sp = EnumSpace { n: 3, pair_base: 6, full_only: true };
+                        let i = mix(seed, this) % sp.total();
+                        let (ops, desc) = sp.ops(i);
+                        let mut it = ops.into_iter();
+                        let mut g = |_: &World| it.next();
+                        (run::run_history(&cfg0, &mut g, 10_000), format!("enum-full[{}]", desc))
+                    }
+                };
+                let ops0 = first.ops.clone();
+                let mut res = first;
+                let mut layouts: HashSet<u64> = HashSet::new();
+                layouts.insert(res.layout_digest);
+                let mut runs = 1u64;
+                if res.violations.is_empty() && res.inconclusive.is_none() {
+                    for j in 1..k {
+                        let mut cj = cfg0.clone();
+                        cj.teardown = false; // the recorded sequence already contains the teardown
+                        cj.layout_seed = mix(cfg0.layout_seed, j as u64);
+                        cj.alloc_mode = match j % 4 {
+                            3 => alloc::MODE_PLAIN,
+                            2 => alloc::MODE_QUARANTINE,
+                            _ => alloc::MODE_SCATTER,
+                        };
+                        let mut it = ops0.clone().into_iter();
+                        let mut g = |_: &World| it.next();
+                        let rj = run::run_history(&cj, &mut g, 100_000);
+                        runs += 1;
+                        layouts.insert(rj.layout_digest);
+                        let diverged = rj.digest != res.digest || rj.inconclusive.is_some();
+                        if diverged {
+                            res.violations.push(world::Violation {
+                                prop: "C09",
+                                rule: "layout",
+                                hard: false,
+                                msg: format!(
+                                    "same call sequence, different heap layout (run {} alloc mode {}): digest of destroyed sets and counts {:016x} vs {:016x}{}",
+                                    j,
+                                    cj.alloc_mode,
+                                    rj.digest,
+                                    res.digest,
+                                    rj.inconclusive.as_ref().map(|s| format!("; replay stopped: {}", s)).unwrap_or_default()
+                                ),
+                                event_idx: 0,
+                                op_idx: 0,
+                                known_sig: None,
+                            });
+                            res.log = rj.log.clone();
+                            break;
+                        }
+                        for v in rj.violations {
+                            res.violations.push(v);
+                        }
+                    }
+                }
+                AGG.with(|ag| {
+                    let mut ag = ag.borrow_mut();
+                    *ag.extra.entry("layout_runs".into()).or_insert(0) += runs;
+                    if res.tables_multi > 0 {
+                        *ag.extra.entry("histories_with_multi_entry_tables".into()).or_insert(0) += 1;
+                        if layouts.len() >= 2 {
+                            *ag.extra.entry("histories_where_layouts_produced_distinct_table_orders".into()).or_insert(0) += 1;
+                        }
+                    }
+                    *ag.extra.entry(format!("distinct_table_order_digests_{}", layouts.len().min(8))).or_insert(0) += 1;
+                });
+                res.distinct_orders_max = layouts.len();
+                (res, format!("layout seed={} idx={} K={} {}", seed, this, k, srcdesc))
+            }
             None if gen == "diff" => {
                 let pseed = mix(seed ^ 0xD1FF, this);
                 let len = 15 + (mix(pseed, 3) % a.u64("len", 90)) as usize;
@@ -660,6 +752,48 @@ fn cmd_child(a: &Args) -> i32 {
     0
 }
 
+fn cmd_scale(a: &Args) -> i32 {
+    // the process must not have allocated tracked blocks that are freed in bypass mode: switch
+    // first thing (everything allocated before is leaked at exit anyway)
+    let shape = a.get("shape").unwrap_or("ring").to_string();
+    let n = a.u64("n", 1000) as usize;
+    let stack = a.u64("stack-kib", 128) as usize;
+    let seed = a.u64("seed", 1);
+    println!("SCALE-BEGIN shape={} n={} stack_kib={}", shape, n, stack);
+    let _ = std::io::stdout().flush();
+    alloc::set_bypass(true);
+    let r = scale::run_on_small_stack(shape.clone(), n, seed, stack);
+    match r {
+        Ok(o) => {
+            let line = json::Obj::new()
+                .str("shape", &shape)
+                .num("n", o.n as u64)
+                .num("stack_kib", stack as u64)
+                .num("pairs", o.pairs as u64)
+                .num("loopbacks", o.loopbacks as u64)
+                .num("edges", o.edges as u64)
+                .num("traces", o.traces as u64)
+                .num("pops", o.pops as u64)
+                .num("expansions", o.expansions as u64)
+                .num("entries", o.entries as u64)
+                .num("group_members", o.group_members as u64)
+                .num("drops", o.drops as u64)
+                .num("max_depth", o.max_depth as u64)
+                .num("build_ms", o.build_ms as u64)
+                .num("collect_ms", o.collect_ms as u64)
+                .end();
+            println!("SCALE {}", line);
+            let _ = std::io::stdout().flush();
+            // leave without running allocator bookkeeping on bypassed blocks
+            std::process::exit(0);
+        }
+        Err(e) => {
+            println!("SCALE-ERROR {}", e);
+            1
+        }
+    }
+}
+
 fn cmd_replay(a: &Args) -> i32 {
     install_panic_hook();
     let class = Class::parse(a.get("class").unwrap_or("WF")).expect("bad class");
@@ -712,6 +846,7 @@ fn main() {
         "run" => cmd_run(&a),
         "replay" => cmd_replay(&a),
         "child" => cmd_child(&a),
+        "scale" => cmd_scale(&a),
         "version" => {
             println!("vh {} monalloc={}", env!("CARGO_PKG_VERSION"), alloc::ENABLED);
             0
